@@ -36,13 +36,46 @@ def w_setup(exe, values):
     return {PROP: part}
 
 
+def w_class_messages(pexe):
+    """Every TLD class code (also TEST / RETIRED, which no shipped table row produces) through a caller-installed callback with
+    allow_tld = 0: the error code must be the class's own and the message must be the one documented for that code."""
+    import collections
+    from . import c08
+    part = {"counters": collections.Counter(), "viol": [], "samples": [], "distinct": 0, "sets": {}}
+    mdl = _model.Model()
+    for cls in _model.CLASSES:
+        rc = mdl.class_number(cls)
+        rows = c08.run_policy(pexe, "M %d" % rc)
+        import json as _json
+        obs = _json.loads(rows[0])
+        for m, (ret, err, msg) in enumerate(obs):
+            part["counters"]["callback.calls"] += 1
+            name = mdl.eeav_name.get(err)
+            part["counters"]["code.%s" % name] += 1
+            want = mdl.class_errcode(cls)
+            w = {"class": cls, "result_code": rc, "mode": driver.MODES[m], "allow_tld": 0}
+            if ret != 0 or err != want:
+                part["viol"].append(("class-code/%s-reported-as-%s" % (cls, (name or err)), w, {"ret": ret, "errcode": err, "expected": want}))
+            if not msg:
+                part["viol"].append(("empty-message/TLD_%s" % cls, w, {"message": msg}))
+            else:
+                mname = _model.PINNED_MESSAGES.get(msg)
+                if mname is None:
+                    part["counters"]["message.unknown-text"] += 1
+                elif mname != "EEAV_TLD_" + cls:
+                    part["viol"].append(("untrue-message/TLD_%s-says-%s" % (cls, mname[5:]), w, {"message": msg, "errcode": err}))
+    part["distinct"] = len(_model.CLASSES) * 4
+    part["samples"].append({"source": "class-callback", "classes": _model.CLASSES})
+    return {PROP: part}
+
+
 def main(tier, seed):
     rng = random.Random(seed)
     vals = [0, 1, 2, 3, 4, 5, -1, -2, 77, 99, 255, 256, 2**31 - 1, -2**31, 65536, -65536]
     vals += [rng.randrange(-2**31, 2**31) for _ in range(200 if tier == "quick" else 5000)]
 
     def extra_jobs(cx, exe, opts, extra, name):
-        jobs = [(w_setup, (exe, vals))]
+        jobs = [(w_setup, (exe, vals)), (w_class_messages, (cx.exe("asan-policy", driver=("drv/policy.c",)),))]
         # a second pass with allow_tld = 0 and allow_tld = only-special: every classified address is then rejected and must carry
         # the code/message of its own class
         mdl2 = _model.Model()
@@ -64,7 +97,7 @@ def main(tier, seed):
     seen = sorted(k[5:] for k in c if k.startswith("code.EEAV_"))
     allc = sorted(mdl.eeav)
     not_seen = [k for k in allc if k not in seen and k != "EEAV_INVALID_RFC"]
-    return rep.finish(c["calls"] + c["setup.calls"], rep.distinct_count,
+    return rep.finish(c["calls"] + c["setup.calls"] + c["callback.calls"], rep.distinct_count,
                       "C01 address corpus x 4 modes x tld off/on with eav_init's default allow_tld; eav_setup with %d int values "
                       "(all defined modes, neighbours, extremes, random); distinct = distinct addresses + distinct rfc values" % len(vals),
                       {"codes_observed": seen, "codes_not_observed": not_seen, "builds": cx.builds_info()})
